@@ -580,11 +580,11 @@ class Gen:
         return dict(m=m, c=c, I=I)
     def case_C07(self, idx):
         r = self.r
-        var = r.choice(["emu", "chain", "floatsplit", "premerge", "custom", "reorder"])
+        var = r.choice(["emu", "chain", "floatsplit", "premerge", "custom", "reorder", "fixchain"])
         self.count("calls", "twin_" + var)
         I3 = [[Fr(1), Fr(0), Fr(0)], [Fr(0), Fr(1), Fr(0)], [Fr(0), Fr(0), Fr(1)]]
         special = {"emu": ["ezyx", "exyz", "eyxz", "ezxy", "txyz"], "chain": ["ezyx", "exyz", "eyxz", "ezxy", "txyz"], "floatsplit": ["float"],
-                   "premerge": ["fixed"], "custom": ["revx", "ezyx"], "reorder": []}[var]
+                   "premerge": ["fixed"], "custom": ["revx", "ezyx"], "reorder": [], "fixchain": []}[var]
         filler = ["revx", "revy", "revz", "rev", "pris", "axis_hel", "ezyx", "txyz"] + ([] if var == "reorder" else ["sph"])
         n = r.randint(2, 5)
         sp_at = r.randrange(n) if special else -1
@@ -598,6 +598,15 @@ class Gen:
             jt, ck = self.joint(kind)
             nodes.append(dict(kind=kind, parent=parent, E=self.rot(), r=[self.dy(-1, 1) for _ in range(3)], body=self.body(), jt=jt, ck=ck))
             self.count("joint_kinds", kind)
+        if var == "fixchain":
+            # a chain of two fixed joints with rotated frames below a movable body, and a movable child hung on the last one
+            anchor = r.randrange(n)
+            for kk, kind in enumerate(["fixed", "fixed", r.choice(["revy", "rev", "ezyx", "pris"])]):
+                jt, ck = self.joint(kind)
+                E = self.rot()
+                while kind == "fixed" and E[0][0] == 1 and E[1][1] == 1: E = self.rot()
+                nodes.append(dict(kind=kind, parent=(anchor if kk == 0 else len(nodes) - 1), E=E, r=[self.dy(-1, 1) for _ in range(3)], body=self.body(), jt=jt, ck=ck))
+            n = len(nodes)
         if var == "reorder":
             # make sure there are two sibling branches
             if not any(nodes[a]["parent"] == nodes[b]["parent"] for a in range(n) for b in range(a + 1, n)):
@@ -622,8 +631,23 @@ class Gen:
             if variant == "premerge":
                 nd = nodes[sp_at]; par = nd["parent"]
                 merged[par] = self._join(nodes[par]["body"], nd["E"], nd["r"], nd["body"])
+            def compose(X2, X1):
+                """child frame X2 = (E2, r2) given in the frame X1 = (E1, r1): (E2 E1, r1 + E1^T r2)"""
+                (E2, r2), (E1, r1) = X2, X1
+                E = [[sum(E2[i][k] * E1[k][j] for k in range(3)) for j in range(3)] for i in range(3)]
+                rr = [r1[i] + sum(E1[k][i] * r2[k] for k in range(3)) for i in range(3)]
+                return (E, rr)
+            flat = {}
+            if variant == "fixchain":
+                # every body of the fixed chain (and the child below it) attached directly to the movable anchor
+                for k in range(n - 3, n):
+                    nd = nodes[k]; X = (nd["E"], nd["r"]); par = nd["parent"]
+                    if par in flat: X = compose(X, flat[par][1]); par = flat[par][0]
+                    flat[k] = (par, X)
             for k in order:
-                nd = nodes[k]; pref = "base" if nd["parent"] < 0 else str(opidx[nd["parent"]])
+                nd = nodes[k]
+                if k in flat: nd = dict(nd); nd["parent"] = flat[k][0]; nd["E"], nd["r"] = flat[k][1]
+                pref = "base" if nd["parent"] < 0 else str(opidx[nd["parent"]])
                 body = merged.get(k, nd["body"]); kind = nd["kind"]
                 qpos[k] = nq
                 if variant == "premerge" and k == sp_at: opidx[k] = None; continue
